@@ -85,10 +85,16 @@ type pausePoint struct {
 var activeRig *stageRig
 var hookOnce sync.Once
 
+// extraStageHook, when set (at init time, by another component), sees every hook point too.
+var extraStageHook func(label string, kv ...any)
+
 func installStageHook() {
 	hookOnce.Do(func() {
 		stslog.InitExternal(quietLogger{})
 		verifhook.Set(func(label string, kv ...any) {
+			if h := extraStageHook; h != nil {
+				h(label, kv...)
+			}
 			r := activeRig
 			if r != nil {
 				r.onHook(label, kv...)
